@@ -14,6 +14,8 @@ Definition base_lits : list (list Z) :=
   [[98; 111; 111; 108]; [98; 121; 116; 101]; [105; 49; 54]; [105; 51; 50]; [105; 54; 52];
    [100; 111; 117; 98; 108; 101]; [115; 116; 114; 105; 110; 103]; [98; 105; 110; 97; 114; 121]].
 Definition doc_opt : cexpr action := CLabel "docstr" (COpt (CSeq [CRef 50; CRef 55])).
+(** the word boundary after a keyword, ![A-Za-z0-9._] (repairs of C10-F8a..e) *)
+Definition kw_guard : cexpr action := CNot (CClass [46; 95] [(65, 90); (97, 122); (48, 57)] false).
 
 Lemma shapes :
   nth_error rules 0 = Some (CAct AGrammar1 (CSeq [CRef 55; CLabel "statements" (CStar (CSeq [CRef 2; CRef 55]));
@@ -26,7 +28,7 @@ Lemma shapes :
   /\ nth_error rules 22 = Some (CAct AFieldType1 (CLabel "typ" (CChoice [CRef 23; CRef 25; CRef 45])))
   /\ nth_error rules 23 = Some (CAct ABaseType1 (CSeq [CLabel "name" (CRef 24); CRef 56;
                                                        CLabel "annotations" (COpt (CRef 31))]))
-  /\ nth_error rules 24 = Some (CAct ABaseTypeName1 (CChoice (map CLit base_lits)))
+  /\ nth_error rules 24 = Some (CAct ABaseTypeName1 (CSeq [CChoice (map CLit base_lits); kw_guard]))
   /\ nth_error rules 50 = Some (CAct ADocString1 (CSeq [CLit [47; 42; 42; 64];
                                                         CStar (CSeq [CNot (CLit [42; 47]); CRef 49]); CLit [42; 47]]))
   /\ nth_error rules 51 = Some (CChoice [CRef 52; CRef 54])
@@ -333,13 +335,56 @@ Ltac lit_ok H :=
 
 Definition is_base (b : bytes) : Prop := In b base_lits.
 
+(** ** the word boundary: the guard succeeds (consuming nothing) exactly when no identifier character follows *)
+Lemma idpart_cont : forall c, (in_chars c [46; 95] || in_ranges c [(65, 90); (97, 122); (48, 57)]) = p_cont c.
+Proof.
+  intros c. unfold p_cont, p_letter, p_digit. cbn [in_chars in_ranges orb].
+  destruct (46 =? c), (95 =? c), ((65 <=? c) && (c <=? 90)), ((97 <=? c) && (c <=? 122)), ((48 <=? c) && (c <=? 57));
+    reflexivity.
+Qed.
+
+Lemma idpart_matches : matches_char (CClass [46; 95] [(65, 90); (97, 122); (48, 57)] false) p_cont 1.
+Proof.
+  apply (matches_char_ext _ (fun c => in_chars c [46; 95] || in_ranges c [(65, 90); (97, 122); (48, 57)]));
+    [intros c _; apply idpart_cont | apply class_matches].
+Qed.
+
+Lemma kw_guard_ok : forall cr s o es fr,
+  stops p_cont s -> evals kw_guard cr (st_of s o es) fr (Done true VNil (st_of s o es) fr).
+Proof.
+  intros cr s o es fr Hs. destruct idpart_matches as (_ & Mn & Me). unfold kw_guard.
+  destruct s as [|d s].
+  - refine (E_not _ cr _ fr false VNil (st_of [] o es) [] _). apply (E_of_bound 1). intros f Hf. exact (Me f cr o es [] Hf).
+  - destruct Hs as [Hd Hp]. refine (E_not _ cr _ fr false VNil (st_of (d :: s) o es) [] _). apply (E_of_bound 1). intros f Hf.
+    exact (Mn f cr d s o es [] Hf Hd Hp).
+Qed.
+
+Lemma kw_guard_fails : forall cr d s o es fr,
+  ascii d -> p_cont d = true -> ascii_next s ->
+  evals kw_guard cr (st_of (d :: s) o es) fr (Done false VNil (st_of (d :: s) o es) fr).
+Proof.
+  intros cr d s o es fr Hd Hp Hs. destruct idpart_matches as (Mm & _ & _). unfold kw_guard.
+  refine (E_not _ cr _ fr true (VBytes [d]) (st_of s (o + 1) es) [] _). apply (E_of_bound 1). intros f Hf.
+  exact (Mm f cr d s o es [] Hf Hd Hp Hs).
+Qed.
+
+(** a non-empty run of blanks, a line break, or a character that is none of a few, ends a word *)
+Lemma blanks_stop : forall g s, run_of p_blank g -> g <> [] -> stops p_cont (g ++ s).
+Proof.
+  intros [|d g] s Hg Hne; [congruence|]. inversion Hg as [|? ? [Hd Hp] _]; subst. cbn [app stops].
+  split; [exact Hd|]. unfold p_blank in Hp. cbn [in_chars in_ranges] in Hp.
+  destruct (Z.eqb_spec 32 d); [subst; reflexivity|]. destruct (Z.eqb_spec 9 d); [subst; reflexivity|].
+  destruct (Z.eqb_spec 13 d); [subst; reflexivity|]. discriminate.
+Qed.
+
 (** BaseTypeName (24): the keyword itself, as a Go string *)
 Lemma base_type_name : forall base s cr o es fr,
-  is_base base -> ascii_next s ->
+  is_base base -> stops p_cont s ->
   evals (CRef 24) cr (st_of (base ++ s) o es) fr
         (Done true (VStr base) (st_of s (o + Z.of_nat (List.length base)) es) fr).
 Proof.
-  intros base s cr o es fr Hb Hs. destruct shapes as (_ & _ & _ & _ & _ & _ & H24 & _).
+  intros base s cr o es fr Hb Hst. pose proof (stops_ascii_next p_cont s Hst) as Hs.
+  destruct shapes as (_ & _ & _ & _ & _ & _ & H24 & _).
   eapply E_ref; [exact H24|].
   assert (Hall : Forall (fun l => lit_ascii_ok l (base ++ s) /\ Forall ascii l) base_lits).
   { unfold is_base, base_lits in Hb. cbn [In] in Hb.
@@ -351,13 +396,15 @@ Proof.
   { unfold is_base, base_lits in Hb. cbn [In] in Hb.
     destruct Hb as [<-|[<-|[<-|[<-|[<-|[<-|[<-|[<-|[]]]]]]]]]; reflexivity. }
   rewrite Hfind in Hc.
-  eapply E_act_ok; [apply E_choice; exact Hc|].
-  unfold finish_action. cbn [rest off]. unfold run_action, run_action_opt.
-  replace (o + Z.of_nat (List.length base) - o) with (Z.of_nat (List.length base)) by lia.
-  rewrite takeZ_app_exact. cbn [ok].
   assert (Hskip : skipn (List.length base) (base ++ s) = s).
   { clear. induction base as [|c b IH]; [reflexivity | exact IH]. }
-  rewrite Hskip. reflexivity.
+  rewrite Hskip in Hc.
+  eapply E_act_ok.
+  { apply E_seq. eapply S_ok; [apply E_choice; exact Hc|].
+    eapply S_ok; [exact (kw_guard_ok 24 s _ es [] Hst)|]. apply S_nil. }
+  unfold finish_action. cbn [rest off]. unfold run_action, run_action_opt.
+  replace (o + Z.of_nat (List.length base) - o) with (Z.of_nat (List.length base)) by lia.
+  rewrite takeZ_app_exact. cbn [ok]. reflexivity.
 Qed.
 
 (** ** BaseType (23) and FieldType (22) on a base-type keyword *)
@@ -371,18 +418,18 @@ Proof.
 Qed.
 
 Lemma base_type : forall base g s cr o es fr,
-  is_base base -> run_of p_blank g -> head_not [32; 9; 13; 47; 40] s ->
+  is_base base -> run_of p_blank g -> head_not [32; 9; 13; 47; 40] s -> stops p_cont (g ++ s) ->
   evals (CRef 23) cr (st_of (base ++ g ++ s) o es) fr
         (Done true (VType (PType base None None []))
               (st_of s (o + Z.of_nat (List.length base) + Z.of_nat (List.length g)) es) fr).
 Proof.
-  intros base g s cr o es fr Hb Hg Hs. destruct shapes as (_ & _ & _ & _ & _ & H23 & _).
+  intros base g s cr o es fr Hb Hg Hs Hst. destruct shapes as (_ & _ & _ & _ & _ & H23 & _).
   assert (Hs4 : head_not [32; 9; 13; 47] s) by (eapply head_not_sub; [|exact Hs]; intros x Hx; cbn in Hx |- *; tauto).
   assert (Hs1 : head_not [40] s) by (eapply head_not_sub; [|exact Hs]; intros x Hx; cbn in Hx |- *; tauto).
   assert (Hn : ascii_next (g ++ s)) by exact (run_app_ascii_next p_blank g s Hg (head_not_ascii_next _ s Hs)).
   eapply E_ref; [exact H23|]. eapply E_act_ok.
   - apply E_seq.
-    eapply S_ok; [apply E_label_ok with (fr1 := []); exact (base_type_name base (g ++ s) 23 o es [] Hb Hn)|].
+    eapply S_ok; [apply E_label_ok with (fr1 := []); exact (base_type_name base (g ++ s) 23 o es [] Hb Hst)|].
     eapply S_ok; [exact (gap_inline g s 23 _ es _ Hg Hs4)|].
     eapply S_ok; [exact (anns_opt_nil 23 s _ es _ Hs1)|].
     apply S_nil.
@@ -390,15 +437,15 @@ Proof.
 Qed.
 
 Lemma field_type_base : forall base g s cr o es fr,
-  is_base base -> run_of p_blank g -> head_not [32; 9; 13; 47; 40] s ->
+  is_base base -> run_of p_blank g -> head_not [32; 9; 13; 47; 40] s -> stops p_cont (g ++ s) ->
   evals (CRef 22) cr (st_of (base ++ g ++ s) o es) fr
         (Done true (VType (PType base None None []))
               (st_of s (o + Z.of_nat (List.length base) + Z.of_nat (List.length g)) es) fr).
 Proof.
-  intros base g s cr o es fr Hb Hg Hs. destruct shapes as (_ & _ & _ & _ & H22 & _).
+  intros base g s cr o es fr Hb Hg Hs Hst. destruct shapes as (_ & _ & _ & _ & H22 & _).
   eapply E_ref; [exact H22|]. eapply E_act_ok.
   - apply E_label_ok with (fr1 := []). apply E_choice. eapply C_ok.
-    exact (base_type base g s 22 o es [] Hb Hg Hs).
+    exact (base_type base g s 22 o es [] Hb Hg Hs Hst).
   - reflexivity.
 Qed.
 
@@ -481,7 +528,7 @@ Definition render_typedef (g1 base g2 name g3 : bytes) : bytes :=
   lit_typedef ++ g1 ++ base ++ g2 ++ name ++ g3 ++ [10].
 
 Lemma typedef_rule : forall g1 base g2 c t g3 w more cr o es fr,
-  run_of p_blank g1 -> is_base base -> run_of p_blank g2 ->
+  run_of p_blank g1 -> is_base base -> run_of p_blank g2 -> g2 <> [] ->
   ascii c -> p_start c = true -> run_of p_cont t -> run_of p_blank g3 ->
   run_of p_wsnl w -> decl_follow more ->
   exists o', evals (CRef 9) cr
@@ -489,7 +536,7 @@ Lemma typedef_rule : forall g1 base g2 c t g3 w more cr o es fr,
         (Done true (VTypeDef (mktypedef None (c :: t) (PType base None None []) []))
               (st_of (w ++ more) o' es) fr).
 Proof.
-  intros g1 base g2 c t g3 w more cr o es fr Hg1 Hb Hg2 Hc Hp Ht Hg3 Hw Hm.
+  intros g1 base g2 c t g3 w more cr o es fr Hg1 Hb Hg2 Hg2n Hc Hp Ht Hg3 Hw Hm.
   destruct shapes as (_ & _ & _ & H9 & _).
   eexists. eapply E_ref; [exact H9|]. eapply E_act_ok.
   - apply E_seq.
@@ -509,7 +556,7 @@ Proof.
     (* typ:FieldType *)
     eapply S_ok; [apply E_label_ok with (fr1 := []);
                   exact (field_type_base base g2 ((c :: t) ++ g3 ++ 10 :: w ++ more) 9 _ es [] Hb Hg2
-                           (start_head_not c _ Hc Hp))|].
+                           (start_head_not c _ Hc Hp) (blanks_stop g2 _ Hg2 Hg2n))|].
     (* _ (nothing left to skip) *)
     eapply S_ok.
     { refine (gap_inline [] ((c :: t) ++ g3 ++ 10 :: w ++ more) 9 _ es _ ltac:(constructor) _).
@@ -534,7 +581,7 @@ Qed.
 Record td_spec := mk_td { td_g1 : bytes; td_base : bytes; td_g2 : bytes; td_c : Z; td_t : bytes;
                           td_g3 : bytes; td_w : bytes }.
 Definition td_ok (d : td_spec) : Prop :=
-  run_of p_blank (td_g1 d) /\ is_base (td_base d) /\ run_of p_blank (td_g2 d)
+  run_of p_blank (td_g1 d) /\ is_base (td_base d) /\ run_of p_blank (td_g2 d) /\ td_g2 d <> []
   /\ ascii (td_c d) /\ p_start (td_c d) = true /\ run_of p_cont (td_t d) /\ run_of p_blank (td_g3 d)
   /\ run_of p_wsnl (td_w d).
 Definition render_one (d : td_spec) (more : bytes) : bytes :=
@@ -560,11 +607,11 @@ Lemma statement_typedef : forall d more cr o es fr,
   exists o', evals (CRef 2) cr (st_of (render_one d more) o es) fr
                    (Done true (VWrapper None (VTypeDef (typedef_of d))) (st_of (td_w d ++ more) o' es) fr).
 Proof.
-  intros d more cr o es fr (Hg1 & Hb & Hg2 & Hc & Hp & Ht & Hg3 & Hw) Hm.
+  intros d more cr o es fr (Hg1 & Hb & Hg2 & Hg2n & Hc & Hp & Ht & Hg3 & Hw) Hm.
   destruct shapes as (_ & H2 & H3 & _).
   destruct keyword_rules as (K4 & K5 & K6 & K7 & _).
   destruct (typedef_rule (td_g1 d) (td_base d) (td_g2 d) (td_c d) (td_t d) (td_g3 d) (td_w d) more 3 o es []
-                         Hg1 Hb Hg2 Hc Hp Ht Hg3 Hw Hm) as [o' Htd].
+                         Hg1 Hb Hg2 Hg2n Hc Hp Ht Hg3 Hw Hm) as [o' Htd].
   exists o'. unfold render_one in *.
   assert (Hk : forall c, 116 <> c ->
      head_not [c] (lit_typedef ++ td_g1 d ++ td_base d ++ td_g2 d ++ (td_c d :: td_t d) ++ td_g3 d ++ 10 :: td_w d ++ more)).
@@ -625,7 +672,7 @@ Proof.
     exact (S_fail 0 _ _ _ _ _ _ _ _ _ (statement_fails_eof 0 o es [])).
   - inversion Hall as [|d' r' Hd Hr]; subst.
     destruct (statement_typedef d (render_all r) 0 o es [] Hd (render_all_follow r)) as [o1 Hst].
-    assert (Hw : run_of p_wsnl (td_w d)) by (destruct Hd as (_ & _ & _ & _ & _ & _ & _ & Hw); exact Hw).
+    assert (Hw : run_of p_wsnl (td_w d)) by (destruct Hd as (_ & _ & _ & _ & _ & _ & _ & _ & Hw); exact Hw).
     assert (Hf6 : head_not [32; 9; 13; 10; 47; 35] (render_all r)).
     { eapply head_not_sub; [|exact (render_all_follow r)]. intros x Hx; cbn in Hx |- *; tauto. }
     destruct (IH (o1 + Z.of_nat (List.length (td_w d))) es fr (stmt_val d :: acc) Hr) as [o' Hloop].
